@@ -20,9 +20,16 @@ HeaderAlphabet ==
 LayoutAlphabet ==
   { Tok("ID", "g"), Tok("ID", "q"), Tok("INT", "0"), KW("{"), KW("}"), KW("<"), KW(">"), KW("["), KW("]"),
     KW(";"), KW("|"), KW("NL"), Tok("LC", ""), Tok("BC", "0"), Tok("BC", "1"), Tok("WS", "") }
+\* branch statements (experimental): BININT payload = the value of the bit string
+BranchAlphabet ==
+  { KW("branch"), Tok("BININT", "1"), Tok("BININT", "2"), KW(":"), KW("{"), KW("}"), KW("<"), KW(">"),
+    Tok("ID", "g"), KW(";"), KW("NL"), KW("let") }
+NoStart == <<>>
+BranchStart == << KW("branch"), KW("{"), Tok("BININT", "1"), KW(":"), KW("{") >>
 PastSet == { Tok("ID", "q"), KW("NL"), KW("}") }
 
-CONSTANTS Alphabet, Past
+CONSTANTS Alphabet, Past,
+          Start      \* the token string the enumeration starts from (<<>>, or a fixed opening such as "branch { '01' : {")
 ASSUME MaxLen \in Nat
 
 Front(s) == SubSeq(s, 1, Len(s) - 1)
@@ -30,7 +37,7 @@ Viable(t) == PS(t).verdict = "ok"
 \* a line comment extends to the end of the line: only a newline (or the end of input) may follow
 LCOK(t, tk) == (Len(t) > 0 /\ t[Len(t)].t = "LC") => tk.t = "NL"
 
-Init == toks = <<>>
+Init == toks = Start
 Next == /\ Len(toks) < MaxLen
         /\ \/ /\ Viable(toks)
               /\ \E tk \in Alphabet : LCOK(toks, tk) /\ toks' = Append(toks, tk)
